@@ -9,12 +9,12 @@ CHECK = {
     "min_nontrivial": {"quick": 25, "thorough": 40},
     "stages": [
         {"name": "serial", "variant": "asan", "harness": "c15_cancel.cpp", "cxxflags": ["-rdynamic"],
-         "cases": {"quick": 96, "thorough": 3000},
-         "params": {"maxPoints": {"quick": 160, "thorough": 400}},
+         "cases": {"quick": 96, "thorough": 800},
+         "params": {"maxPoints": {"quick": 160, "thorough": 300}},
          "case_timeout": 600},
         {"name": "shim", "variant": "shim", "harness": "c15_cancel.cpp", "cxxflags": ["-rdynamic"],
-         "cases": {"quick": 64, "thorough": 2000},
-         "params": {"maxPoints": {"quick": 160, "thorough": 400}, "big": "1"},
+         "cases": {"quick": 64, "thorough": 500},
+         "params": {"maxPoints": {"quick": 160, "thorough": 300}, "big": "1"},
          "case_timeout": 900},
     ],
     "assumptions": ["hook H1 calls the probe at every IsCancelled(ctx) with non-null ctx; Cancel() from inside the probe takes effect at that very check",
